@@ -834,11 +834,11 @@ theorem rd_poll {g : Cfg} (ok : g.OK) {r : AReq} {h : HState} {e : Run.Env} (hr 
 
 /-- One poll that starts inside the handler (given what this poll of the handler returns). -/
 theorem handler_core {g : Cfg} (ok : g.OK) {c : Conn} {r : AReq} {h : HState} (hph : c.phase = .handler r h)
-    (hout : HOut g.Wc g.Rd c.env (handlerPoll (handlerFuel c.env r) r h c.env))
+    (hout : HOut g.Wc g.Rd c.env (handlerPoll ((handlerFuel c.env r + scriptOf c)) r h c.env))
     (hb : Ben c.env.tr) (hstop : c.stop = false) (hev : Ev1 g c.env.tr) (hsc : c.scripts = g.more) :
     Res g (2 * c.env.tr.input.length + 10) c := by
   have hstep := C07.handler_step c r h hph
-  rcases hhp : handlerPoll (handlerFuel c.env r) r h c.env with ⟨r', h', e', res⟩
+  rcases hhp : handlerPoll ((handlerFuel c.env r + scriptOf c)) r h c.env with ⟨r', h', e', res⟩
   rw [hhp] at hstep hout
   obtain ⟨hts, hsegs, hres⟩ := hout
   simp only at hts hsegs hres
@@ -996,7 +996,7 @@ theorem final_poll {g : Cfg} (ok : g.OK) {c1 : Conn} {F1 rest : Bytes} {t' : Tra
             { ops := g.hscript, propagate := true },
         (⟨t', c1.env.mutex, c1.env.segs⟩ : Run.Env).ev (hsEvent g.p.request), g.more, false⟩) rfl
     (first_poll ok (e := (⟨t', c1.env.mutex, c1.env.segs⟩ : Run.Env).ev (hsEvent g.p.request)) he1len
-      (by show e1 ++ t'.input = g.X; rw [hinp']; exact hwire) hL1 hmx1 hben2 hfuelH) hben2 rfl hev1 rfl
+      (by show e1 ++ t'.input = g.X; rw [hinp']; exact hwire) hL1 hmx1 hben2 (Nat.le_trans hfuelH (Nat.le_add_right _ _))) hben2 rfl hev1 rfl
   have hres := Res.of_steps (Steps.one hstep') ⟨hwsE, rfl, hstop1.symm ▸ rfl⟩ hcore
   refine hres.mono ?_
   have h2 := congrArg List.length hinp'
